@@ -263,9 +263,17 @@ func NewUpstream(addr string, opt Opt) (_ Upstream, err error) {
 				MaxResponseHeaderBytes: 4 * 1024,
 			}
 		} else {
+			// http.Transport cannot be closed. Track its connections so that
+			// closing the upstream closes them and fails later dials.
+			conns := newConnTracker()
+			addonCloser = conns
 			t1 := &http.Transport{
 				DialContext: func(ctx context.Context, network, addr string) (net.Conn, error) {
-					return dialer.DialContext(ctx, dialNetworkTcpOrUnix(dialAddr), dialAddr)
+					c, err := dialer.DialContext(ctx, dialNetworkTcpOrUnix(dialAddr), dialAddr)
+					if err != nil {
+						return nil, err
+					}
+					return conns.track(c)
 				},
 				TLSClientConfig:     opt.TLSConfig,
 				TLSHandshakeTimeout: tlsHandshakeTimeout,
